@@ -25,6 +25,7 @@ import (
 	"fmt"
 	"io"
 	"math/rand"
+	"os"
 	"reflect"
 	"sort"
 	"strings"
@@ -197,6 +198,8 @@ type nsSim struct {
 	propSeq    int
 	flags      map[string]bool
 	foreign    map[string]bool
+	topMem     pb.Membership
+	topApplied uint64
 	applyViol  [][2]string
 	// orphanBlocked[r] = index of a streamed snapshot that r's transport rejected
 	// because a finalized directory of that index already exists at r
@@ -484,6 +487,7 @@ func (s *nsSim) stopReplica(r *nsReplica) {
 	if !r.alive {
 		return
 	}
+	s.observeMembership()
 	s.guard(fmt.Sprintf("stop r%d", r.id), func() {
 		r.n.close()
 		if err := r.n.destroy(); err != nil {
@@ -992,6 +996,7 @@ func (s *nsSim) afterAction() {
 			}
 		}
 	}
+	s.observeMembership()
 	s.poll()
 	// NodeHost's node monitor: a replica that stopped itself is unloaded
 	for _, r := range s.reps[1:] {
@@ -1210,23 +1215,32 @@ func (s *nsSim) leader() *nsReplica {
 	return best
 }
 
-// latestMembership: the applied membership of the replica with the highest
-// applied index (running or not).
+// latestMembership: the applied membership with the highest applied index that
+// any replica has ever shown (afterAction keeps it; a freshly restarted replica's
+// state machine is empty until it has replayed its log). Before anything was
+// applied it is the initial membership.
 func (s *nsSim) latestMembership() (pb.Membership, uint64) {
-	var best *nsReplica
-	var ba uint64
+	s.observeMembership()
+	if s.topApplied == 0 {
+		m := pb.Membership{Addresses: map[uint64]string{}}
+		for id := uint64(1); id <= uint64(s.opts.voters); id++ {
+			m.Addresses[id] = nsAddr(id)
+		}
+		return m, 0
+	}
+	return s.topMem, s.topApplied
+}
+
+func (s *nsSim) observeMembership() {
 	for _, r := range s.reps[1:] {
 		if r.n == nil {
 			continue
 		}
-		if a := r.n.sm.GetLastApplied(); best == nil || a > ba {
-			best, ba = r, a
+		if a := r.n.sm.GetLastApplied(); a > s.topApplied {
+			s.topApplied = a
+			s.topMem = r.n.sm.GetMembership()
 		}
 	}
-	if best == nil {
-		return pb.Membership{}, 0
-	}
-	return best.n.sm.GetMembership(), ba
 }
 
 func (s *nsSim) maxApplied() uint64 {
@@ -1292,6 +1306,9 @@ func (s *nsSim) fairPhase(clientPick func(n int) int) {
 		if running < len(mem.Addresses)/2+1 {
 			s.logf("    no majority of the voting members %v can be run by the operator, no progress required", nsKeys(mem.Addresses))
 			s.flag("fair-no-majority-running")
+			if os.Getenv("VF_NS_DEBUG") != "" {
+				fmt.Println("NOMAJ", nsKeys(mem.Addresses), s.describe())
+			}
 			return
 		}
 	}
